@@ -364,6 +364,20 @@ func (m *message) UnmarshalBody(bodyBytes []byte) error {
 	}
 	length := len(bodyBytes)
 	if length == 0 {
+		// an empty body is the empty value where the body's encoding has one (raw bytes, plain text,
+		// an all-zero protobuf message): a receiver that is reused must not keep the previous value
+		switch body := m.body.(type) {
+		case nil, []byte:
+		case *[]byte:
+			if body != nil {
+				*body = (*body)[:0]
+			}
+		default:
+			if c, err := codec.Get(m.bodyCodec); err == nil {
+				// codecs for which the empty input is no document fail here and leave the receiver alone
+				_ = c.Unmarshal(bodyBytes, m.body)
+			}
+		}
 		return nil
 	}
 	switch body := m.body.(type) {
